@@ -50,6 +50,17 @@ Theorem C14_effective_item_sound :
 Proof. exact item_sound. Qed.
 Print Assumptions C14_effective_item_sound.
 
+(* the exact sequence E[Q]_0, E[Q]_1, ... from the validated items alone (no candidate closed
+   form): what the search compares a rejected candidate with when path enumeration is too
+   expensive or the program draws from a continuous family *)
+Theorem C14_certified_values :
+  forall law cmom, cmom_ok law cmom ->
+  forall fp T Q k items N vs, synth_values cmom fp T Q k items N = Some vs ->
+  forall s0, init_ok fp T s0 ->
+  forall n, (n < N)%nat -> nth n vs 0%Qc = E (frun law fp n s0) (eval_poly Q).
+Proof. exact synth_values_sound. Qed.
+Print Assumptions C14_certified_values.
+
 (* the k = 1 search and the general search (or synth_inv and synth_loop) may return the same Q
    with different closed forms: accepted ones denote the same sequence *)
 Theorem C14_accepted_closed_forms_agree :
@@ -154,6 +165,10 @@ Example C14_summing_defect_refuted :
   /\ Qc_eqb (eevalQ w1_f_polar 1) (mkq 15 2) = true
   /\ check_synth_any cm0 w1_fp w1_T w1_Q [mkq 2 1] [w1_item_z; const_item] [] w1_f_polar = false.
 Proof. vm_compute. repeat split; reflexivity. Qed.
+Example C14_summing_defect_certified_values :
+  option_map (map qpair) (synth_values cm0 w1_fp w1_T w1_Q (mkq 2 1) [w1_item_z; const_item] 4)
+  = Some [(3%Z, 1%positive); (21%Z, 1%positive); (87%Z, 2%positive); (177%Z, 2%positive)].
+Proof. vm_compute. reflexivity. Qed.
 (* the repaired result Piecewise((3, n <= 0), (3*(15*2^n - 2)/4, True)) is accepted: all n *)
 Example C14_summing_defect_repaired :
   check_synth_any cm0 w1_fp w1_T w1_Q [mkq 2 1] [w1_item_z; const_item] [mkq 3 1]
